@@ -1,4 +1,4 @@
-"""C05 -- moving definitions and modules keeps importers working (structural clauses R05.1-R05.16)."""
+"""C05 -- moving definitions and modules keeps importers working (structural clauses R05.1-R05.20)."""
 from __future__ import annotations
 
 import ast
